@@ -161,6 +161,9 @@ class Characteristics:
     @adc_bit_resolution.setter
     def adc_bit_resolution(self, value: int) -> None:
         """Set bit resolution of the Analog-Digital Converter."""
+        if not (4 <= value <= 64):
+            raise ValueError("'adc_bit_resolution' must be between 4 and 64.")
+
         self._adc_bit_resolution = value
 
     @property
